@@ -8,6 +8,12 @@ except ImportError:
     from collections import Sequence
 
 
+def _is_vector(obj):
+    """A sequence or an array (e.g. :class:`numpy.ndarray`) of values, one per
+    objective, as opposed to a single number."""
+    return isinstance(obj, Sequence) or getattr(obj, "ndim", 0) > 0
+
+
 class DeltaPenalty(object):
     r"""This decorator returns penalized fitness for invalid individuals and the
     original fitness value for valid individuals. The penalized fitness is made
@@ -41,7 +47,7 @@ class DeltaPenalty(object):
     """
     def __init__(self, feasibility, delta, distance=None):
         self.fbty_fct = feasibility
-        if not isinstance(delta, Sequence):
+        if not _is_vector(delta):
             self.delta = repeat(delta)
         else:
             self.delta = delta
@@ -58,7 +64,7 @@ class DeltaPenalty(object):
             dists = tuple(0 for w in individual.fitness.weights)
             if self.dist_fct is not None:
                 dists = self.dist_fct(individual)
-                if not isinstance(dists, Sequence):
+                if not _is_vector(dists):
                     dists = repeat(dists)
             return tuple(d - w * dist for d, w, dist in zip(self.delta, weights, dists))
 
@@ -125,7 +131,7 @@ class ClosestValidPenalty(object):
             dists = tuple(0 for w in individual.fitness.weights)
             if self.dist_fct is not None:
                 dists = self.dist_fct(f_ind, individual)
-                if not isinstance(dists, Sequence):
+                if not _is_vector(dists):
                     dists = repeat(dists)
 
             # print("penalty ", tuple(  - w * self.alpha * d for f, w, d in zip(f_fbl, weights, dists)))
